@@ -157,9 +157,19 @@ theorem buildErc20_cases {s : State} (h : WF s) {name symbol minUnit : String} {
       right
       exact ⟨contains_false (by simpa using hs), contains_false (by simpa using hc), rfl, rfl, rfl⟩
 
-/-- **C09(1b)** every accepted operation — of the whole module, conversions and deployment
-included — keeps the symbol table and the min-unit index consistent -/
-theorem wf_step (s s' : State) (op : Op) (h : WF s) (hs : step s op = .ok s') : WF s' := by
+theorem wf_mintH {s s' : State} {owner to denom : String} {amount : Int} (h : WF s)
+    (hh : handleMint s owner to denom amount = .ok s') : WF s' := by
+  obtain ⟨_, sym, s1, _, h1, h2⟩ := mintH_ok hh
+  obtain ⟨_, _, _, _, _, _, _, rfl⟩ := deductFee_ok h1
+  obtain ⟨_, _, _, _, _, rfl⟩ := mintChecked_ok h2
+  exact wf_of_lookups h (fun _ => rfl) (fun _ => rfl)
+
+theorem wf_burnH {s s' : State} {sender denom : String} {amount : Int} (h : WF s)
+    (hh : handleBurn s sender denom amount = .ok s') : WF s' := by
+  obtain ⟨_, b, _, rfl⟩ := burnH_ok hh
+  exact wf_of_lookups h (fun _ => rfl) (fun _ => rfl)
+
+theorem wf_step_core (s s' : State) (op : Op) (hn : norm op = op) (h : WF s) (hs : step s op = .ok s') : WF s' := by
   cases op with
   | issue owner symbol name minUnit scale init max mintable =>
     obtain ⟨_, _, s1, h1, hc1, hc2, rfl⟩ := issue_ok hs
@@ -171,14 +181,8 @@ theorem wf_step (s s' : State) (op : Op) (h : WF s) (hs : step s op = .ok s') : 
   | edit owner symbol name max mintable =>
     obtain ⟨t, ht, _, _, rfl⟩ := edit_ok hs
     exact wf_modify (t' := edited t name max mintable) h ht rfl rfl (fun k => get?_set _ _ _ _) (fun _ => rfl)
-  | mint owner to denom amount =>
-    obtain ⟨_, _, sym, s1, _, h1, h2⟩ := mint_ok hs
-    obtain ⟨_, _, _, _, _, _, _, rfl⟩ := deductFee_ok h1
-    obtain ⟨_, _, _, _, _, rfl⟩ := mintChecked_ok h2
-    exact wf_of_lookups h (fun _ => rfl) (fun _ => rfl)
-  | burn sender denom amount =>
-    obtain ⟨_, _, b, _, rfl⟩ := burn_step_ok hs
-    exact wf_of_lookups h (fun _ => rfl) (fun _ => rfl)
+  | mint owner to denom amount => exact wf_mintH h (mint_handle hs).2.2
+  | burn sender denom amount => exact wf_burnH h (burn_handle hs).2.2
   | transferOwner src dst symbol =>
     obtain ⟨_, t, ht, _, rfl⟩ := transferOwner_ok hs
     exact wf_modify (t' := { t with owner := dst }) h ht rfl rfl (fun k => get?_set _ _ _ _) (fun _ => rfl)
@@ -218,6 +222,24 @@ theorem wf_step (s s' : State) (op : Op) (h : WF s) (hs : step s op = .ok s') : 
   | evmTx target logs =>
     have f := logs_frame (evmTx_ok hs)
     exact wf_of_lookups h (fun _ => by rw [f.tokens]) (fun _ => by rw [f.minUnits])
+  | legacyIssue _ _ _ _ _ _ _ _ => cases hn
+  | legacyEdit _ _ _ _ _ => cases hn
+  | legacyTransferOwner _ _ _ => cases hn
+  | legacyMint owner to symbol amount =>
+    obtain ⟨_, _, t, _, _, _, hh⟩ := legacyMint_ok hs
+    exact wf_mintH h hh
+  | legacyBurn sender symbol amount =>
+    obtain ⟨_, _, t, _, _, _, hh⟩ := legacyBurn_ok hs
+    exact wf_burnH h hh
+  | upgradeErc20 authority impl =>
+    obtain ⟨_, _, _, _, _, rfl⟩ := upgrade_ok hs
+    exact wf_of_lookups h (fun _ => rfl) (fun _ => rfl)
+
+/-- **C09(1b)** every accepted operation — of the whole module: both Msg services (v1 and the
+legacy v1beta1 one), conversions, deployment and upgrade included — keeps the symbol table and the
+min-unit index consistent -/
+theorem wf_step (s s' : State) (op : Op) (h : WF s) (hs : step s op = .ok s') : WF s' :=
+  wf_step_core s s' (norm op) (norm_idem op) h (by rw [← step_norm]; exact hs)
 
 theorem wf_apply (s : State) (op : Op) (h : WF s) : WF (apply s op) := by
   unfold apply
@@ -237,6 +259,15 @@ theorem wf_reachable (bank : Bank) (p : Params) (env : Env) (ops : List Op) :
 
 /-! #### never rebound -/
 
+/-- the hand-over an operation is, if it is one: (sender, recipient, symbol) — through the v1 or
+through the legacy Msg service -/
+def handOver : Op → Option (String × String × String)
+  | .transferOwner src dst symbol => some (src, dst, symbol)
+  | .legacyTransferOwner src dst symbol => some (src, dst, symbol)
+  | _ => none
+
+theorem handOver_norm (op : Op) : handOver (norm op) = handOver op := by cases op <;> rfl
+
 /-- how an accepted operation may change the token table: not at all, by replacing one token
 with one of the same identity (and the same owner unless the operation is that owner's
 hand-over), or by adding a token whose symbol and min unit are both new -/
@@ -246,14 +277,37 @@ inductive Change (s s' : State) (op : Op) : Prop
   | modify (sym : String) (t t' : Token) (ht : AMap.get? s.tokens sym = some t)
          (hsym : t'.symbol = t.symbol) (hmu : t'.minUnit = t.minUnit) (hsc : t'.scale = t.scale)
          (hinit : t'.initialSupply = t.initialSupply)
-         (hown : t'.owner = t.owner ∨ ∃ dst, op = .transferOwner t.owner dst sym ∧ t'.owner = dst)
+         (hown : t'.owner = t.owner ∨ ∃ dst, handOver op = some (t.owner, dst, sym) ∧ t'.owner = dst)
          (e1 : ∀ k, AMap.get? s'.tokens k = if sym = k then some t' else AMap.get? s.tokens k)
          (e2 : ∀ k, AMap.get? s'.minUnits k = AMap.get? s.minUnits k)
   | add (t : Token) (hn1 : AMap.get? s.tokens t.symbol = none) (hn2 : AMap.get? s.minUnits t.minUnit = none)
          (e1 : ∀ k, AMap.get? s'.tokens k = if t.symbol = k then some t else AMap.get? s.tokens k)
          (e2 : ∀ k, AMap.get? s'.minUnits k = if t.minUnit = k then some t.symbol else AMap.get? s.minUnits k)
 
-theorem change_step (s s' : State) (op : Op) (h : WF s) (hs : step s op = .ok s') : Change s s' op := by
+theorem Change.of_norm {s s' : State} {op : Op} (h : Change s s' (norm op)) : Change s s' op := by
+  cases h with
+  | same e1 e2 => exact .same e1 e2
+  | modify sym t t' ht hsym hmu hsc hinit hown e1 e2 =>
+    rw [handOver_norm] at hown
+    exact .modify sym t t' ht hsym hmu hsc hinit hown e1 e2
+  | add t hn1 hn2 e1 e2 => exact .add t hn1 hn2 e1 e2
+
+theorem same_mintH {s s' : State} {owner to denom : String} {amount : Int}
+    (hh : handleMint s owner to denom amount = .ok s') :
+    s'.tokens = s.tokens ∧ s'.minUnits = s.minUnits ∧ s'.owners = s.owners ∧ s'.burned = s.burned := by
+  obtain ⟨_, sym, s1, _, h1, h2⟩ := mintH_ok hh
+  obtain ⟨_, _, _, _, _, _, _, rfl⟩ := deductFee_ok h1
+  obtain ⟨_, _, _, _, _, rfl⟩ := mintChecked_ok h2
+  exact ⟨rfl, rfl, rfl, rfl⟩
+
+theorem same_burnH {s s' : State} {sender denom : String} {amount : Int}
+    (hh : handleBurn s sender denom amount = .ok s') :
+    s'.tokens = s.tokens ∧ s'.minUnits = s.minUnits ∧ s'.owners = s.owners := by
+  obtain ⟨_, b, _, rfl⟩ := burnH_ok hh
+  exact ⟨rfl, rfl, rfl⟩
+
+theorem change_step_core (s s' : State) (op : Op) (hn : norm op = op) (h : WF s) (hs : step s op = .ok s') :
+    Change s s' op := by
   cases op with
   | issue owner symbol name minUnit scale init max mintable =>
     obtain ⟨_, _, s1, h1, hc1, hc2, rfl⟩ := issue_ok hs
@@ -265,16 +319,14 @@ theorem change_step (s s' : State) (op : Op) (h : WF s) (hs : step s op = .ok s'
     exact .modify symbol t (edited t name max mintable) ht rfl rfl rfl rfl (Or.inl rfl)
       (fun k => get?_set _ _ _ _) (fun _ => rfl)
   | mint owner to denom amount =>
-    obtain ⟨_, _, sym, s1, _, h1, h2⟩ := mint_ok hs
-    obtain ⟨_, _, _, _, _, _, _, rfl⟩ := deductFee_ok h1
-    obtain ⟨_, _, _, _, _, rfl⟩ := mintChecked_ok h2
-    exact .same (fun _ => rfl) (fun _ => rfl)
+    obtain ⟨e1, e2, _, _⟩ := same_mintH (mint_handle hs).2.2
+    exact .same (fun _ => by rw [e1]) (fun _ => by rw [e2])
   | burn sender denom amount =>
-    obtain ⟨_, _, b, _, rfl⟩ := burn_step_ok hs
-    exact .same (fun _ => rfl) (fun _ => rfl)
+    obtain ⟨e1, e2, _⟩ := same_burnH (burn_handle hs).2.2
+    exact .same (fun _ => by rw [e1]) (fun _ => by rw [e2])
   | transferOwner src dst symbol =>
     obtain ⟨_, t, ht, ho, rfl⟩ := transferOwner_ok hs
-    exact .modify symbol t { t with owner := dst } ht rfl rfl rfl rfl (Or.inr ⟨dst, by rw [ho], rfl⟩)
+    exact .modify symbol t { t with owner := dst } ht rfl rfl rfl rfl (Or.inr ⟨dst, by rw [ho]; rfl, rfl⟩)
       (fun k => get?_set _ _ _ _) (fun _ => rfl)
   | swapFee sender to denom amount =>
     obtain ⟨_, tb, target, ratio, tm, b, m, _, _, _, _, h2⟩ := swapFee_ok hs
@@ -312,6 +364,23 @@ theorem change_step (s s' : State) (op : Op) (h : WF s) (hs : step s op = .ok s'
   | evmTx target logs =>
     have f := logs_frame (evmTx_ok hs)
     exact .same (fun _ => by rw [f.tokens]) (fun _ => by rw [f.minUnits])
+  | legacyIssue _ _ _ _ _ _ _ _ => cases hn
+  | legacyEdit _ _ _ _ _ => cases hn
+  | legacyTransferOwner _ _ _ => cases hn
+  | legacyMint owner to symbol amount =>
+    obtain ⟨_, _, t, _, _, _, hh⟩ := legacyMint_ok hs
+    obtain ⟨e1, e2, _, _⟩ := same_mintH hh
+    exact .same (fun _ => by rw [e1]) (fun _ => by rw [e2])
+  | legacyBurn sender symbol amount =>
+    obtain ⟨_, _, t, _, _, _, hh⟩ := legacyBurn_ok hs
+    obtain ⟨e1, e2, _⟩ := same_burnH hh
+    exact .same (fun _ => by rw [e1]) (fun _ => by rw [e2])
+  | upgradeErc20 authority impl =>
+    obtain ⟨_, _, _, _, _, rfl⟩ := upgrade_ok hs
+    exact .same (fun _ => rfl) (fun _ => rfl)
+
+theorem change_step (s s' : State) (op : Op) (h : WF s) (hs : step s op = .ok s') : Change s s' op :=
+  Change.of_norm (change_step_core s s' (norm op) (norm_idem op) h (by rw [← step_norm]; exact hs))
 
 theorem keeps_refl (s : State) : Keeps s s :=
   ⟨fun _ t ht => ⟨t, ht, rfl, rfl, rfl⟩, fun _ _ hm => hm⟩
@@ -442,35 +511,48 @@ theorem rejected_unchanged (s : State) (op : Op) (e : Err) (h : step s op = .err
   unfold apply; rw [h]
 
 /-- **C09(2d)** authority follows ownership: the owner of an existing token changes only by a
-hand-over sent by the current owner, to the recipient it names -/
+hand-over — a `MsgTransferTokenOwner` of the v1 or of the legacy Msg service — sent by the current
+owner, to the recipient it names; no other operation of the extended alphabet changes an owner -/
 theorem owner_changes_only_by_transfer (s : State) (op : Op) (h : WF s) (sym : String) (t t' : Token)
     (ht : AMap.get? s.tokens sym = some t) (ht' : AMap.get? (apply s op).tokens sym = some t')
-    (hne : t'.owner ≠ t.owner) : ∃ dst, op = .transferOwner t.owner dst sym ∧ t'.owner = dst := by
-  unfold apply at ht'
-  cases hs : step s op with
-  | error e => rw [hs] at ht'; simp only at ht'; rw [ht] at ht'; cases ht'; exact absurd rfl hne
-  | ok s' =>
-    rw [hs] at ht'
-    simp only at ht'
-    cases change_step s s' op h hs with
-    | same e1 _ => rw [e1, ht] at ht'; cases ht'; exact absurd rfl hne
-    | modify sym2 t2 t2' ht2 _ _ _ _ hown e1 _ =>
-      rw [e1] at ht'
-      by_cases hk : sym2 = sym
-      · subst hk
-        simp only [if_true, Option.some.injEq] at ht'
-        subst ht'
-        rw [ht] at ht2; cases ht2
-        rcases hown with ho | ho
-        · exact absurd ho hne
-        · exact ho
-      · simp only [hk, if_false] at ht'
+    (hne : t'.owner ≠ t.owner) :
+    ∃ dst, (op = .transferOwner t.owner dst sym ∨ op = .legacyTransferOwner t.owner dst sym) ∧ t'.owner = dst := by
+  have key : ∃ dst, handOver op = some (t.owner, dst, sym) ∧ t'.owner = dst := by
+    unfold apply at ht'
+    cases hs : step s op with
+    | error e => rw [hs] at ht'; simp only at ht'; rw [ht] at ht'; cases ht'; exact absurd rfl hne
+    | ok s' =>
+      rw [hs] at ht'
+      simp only at ht'
+      cases change_step s s' op h hs with
+      | same e1 _ => rw [e1, ht] at ht'; cases ht'; exact absurd rfl hne
+      | modify sym2 t2 t2' ht2 _ _ _ _ hown e1 _ =>
+        rw [e1] at ht'
+        by_cases hk : sym2 = sym
+        · subst hk
+          simp only [if_true, Option.some.injEq] at ht'
+          subst ht'
+          rw [ht] at ht2; cases ht2
+          rcases hown with ho | ho
+          · exact absurd ho hne
+          · exact ho
+        · simp only [hk, if_false] at ht'
+          rw [ht] at ht'; cases ht'; exact absurd rfl hne
+      | add t2 hn1 _ e1 _ =>
+        rw [e1] at ht'
+        have hk : t2.symbol ≠ sym := by intro e; rw [e, ht] at hn1; cases hn1
+        simp only [hk, if_false] at ht'
         rw [ht] at ht'; cases ht'; exact absurd rfl hne
-    | add t2 hn1 _ e1 _ =>
-      rw [e1] at ht'
-      have hk : t2.symbol ≠ sym := by intro e; rw [e, ht] at hn1; cases hn1
-      simp only [hk, if_false] at ht'
-      rw [ht] at ht'; cases ht'; exact absurd rfl hne
+  obtain ⟨dst, hh, hd⟩ := key
+  refine ⟨dst, ?_, hd⟩
+  cases op with
+  | transferOwner a b c =>
+    simp only [handOver, Option.some.injEq, Prod.mk.injEq] at hh
+    obtain ⟨rfl, rfl, rfl⟩ := hh; exact Or.inl rfl
+  | legacyTransferOwner a b c =>
+    simp only [handOver, Option.some.injEq, Prod.mk.injEq] at hh
+    obtain ⟨rfl, rfl, rfl⟩ := hh; exact Or.inr rfl
+  | _ => simp [handOver] at hh
 
 /-! ### 3. The circulating amount never exceeds the declared maximum -/
 
@@ -505,8 +587,46 @@ theorem issueValid_init_le {owner symbol name minUnit : String} {scale init max 
   simp only [Bool.and_eq_true, decide_eq_true_eq] at h
   exact h.1.2
 
-/-- **C09(3a)** one accepted issue / edit / mint / burn / hand-over keeps every token within its cap -/
-theorem good_step (s s' : State) (op : Op) (h : Good s) (hop : isC09Op op = true)
+theorem good_mintH {s s' : State} {owner to denom : String} {amount : Int} (h : Good s)
+    (hh : handleMint s owner to denom amount = .ok s') : Good s' := by
+  have hwf' := wf_mintH h.wf hh
+  obtain ⟨_, sym, s1, _, h1, h2⟩ := mintH_ok hh
+  have g1 := good_deductFee h h1
+  obtain ⟨t, ht, _, _, hroom, rfl⟩ := mintChecked_ok h2
+  obtain ⟨emu, etok, eidx⟩ := tokenByMinUnit_wf g1.wf ht
+  refine ⟨hwf', ?_, ?_⟩
+  · intro sym2 t2 ht2
+    simp only at ht2
+    simp only [supplyOf]
+    by_cases hk : denom = t2.minUnit
+    · have := (minUnit_identifies_one_token g1.wf etok ht2 (by rw [emu, hk])).2
+      subst this
+      rw [← hk, supplyOf_mint_self]
+      rw [emu] at hroom
+      exact hroom
+    · rw [supplyOf_mint_other _ _ _ _ _ hk]
+      exact g1.cap sym2 t2 ht2
+  · intro d hd
+    simp only [supplyOf] at hd ⊢
+    by_cases hk : denom = d
+    · subst hk; simp [eidx]
+    · rw [supplyOf_mint_other _ _ _ _ _ hk] at hd
+      exact g1.reg d hd
+
+theorem good_burnH {s s' : State} {sender denom : String} {amount : Int} (h : Good s)
+    (hh : handleBurn s sender denom amount = .ok s') : Good s' := by
+  obtain ⟨_, b, hb, rfl⟩ := burnH_ok hh
+  obtain ⟨_, _, e3, _, e5⟩ := burn_ok hb
+  refine good_of_supply_le h rfl rfl ?_
+  intro d
+  simp only [supplyOf]
+  by_cases hk : denom = d
+  · subst hk; rw [e3]; omega
+  · rw [e5 d hk]; exact Nat.le_refl _
+
+theorem isC09Op_norm (op : Op) : isC09Op (norm op) = isC09Op op := by cases op <;> rfl
+
+theorem good_step_core (s s' : State) (op : Op) (hn : norm op = op) (h : Good s) (hop : isC09Op op = true)
     (hs : step s op = .ok s') : Good s' := by
   have hwf' := wf_step s s' op h.wf hs
   cases op with
@@ -563,38 +683,8 @@ theorem good_step (s s' : State) (op : Op) (h : Good s) (hop : isC09Op op = true
       · simp only [hmax, if_false]; exact hcap
     · simp only [hk, if_false] at ht2
       exact h.cap sym2 t2 ht2
-  | mint owner to denom amount =>
-    obtain ⟨_, _, sym, s1, _, h1, h2⟩ := mint_ok hs
-    have g1 := good_deductFee h h1
-    obtain ⟨t, ht, _, _, hroom, rfl⟩ := mintChecked_ok h2
-    obtain ⟨emu, etok, eidx⟩ := tokenByMinUnit_wf g1.wf ht
-    refine ⟨hwf', ?_, ?_⟩
-    · intro sym2 t2 ht2
-      simp only at ht2
-      simp only [supplyOf]
-      by_cases hk : denom = t2.minUnit
-      · have := (minUnit_identifies_one_token g1.wf etok ht2 (by rw [emu, hk])).2
-        subst this
-        rw [← hk, supplyOf_mint_self]
-        rw [emu] at hroom
-        exact hroom
-      · rw [supplyOf_mint_other _ _ _ _ _ hk]
-        exact g1.cap sym2 t2 ht2
-    · intro d hd
-      simp only [supplyOf] at hd ⊢
-      by_cases hk : denom = d
-      · subst hk; simp [eidx]
-      · rw [supplyOf_mint_other _ _ _ _ _ hk] at hd
-        exact g1.reg d hd
-  | burn sender denom amount =>
-    obtain ⟨_, _, b, hb, rfl⟩ := burn_step_ok hs
-    obtain ⟨_, _, e3, _, e5⟩ := burn_ok hb
-    refine good_of_supply_le h rfl rfl ?_
-    intro d
-    simp only [supplyOf]
-    by_cases hk : denom = d
-    · subst hk; rw [e3]; omega
-    · rw [e5 d hk]; exact Nat.le_refl _
+  | mint owner to denom amount => exact good_mintH h (mint_handle hs).2.2
+  | burn sender denom amount => exact good_burnH h (burn_handle hs).2.2
   | transferOwner src dst symbol =>
     obtain ⟨_, t, ht, _, rfl⟩ := transferOwner_ok hs
     refine ⟨hwf', ?_, h.reg⟩
@@ -607,6 +697,15 @@ theorem good_step (s s' : State) (op : Op) (h : Good s) (hop : isC09Op op = true
       exact h.cap symbol t ht
     · simp only [hk, if_false] at ht2
       exact h.cap sym2 t2 ht2
+  | legacyMint owner to symbol amount =>
+    obtain ⟨_, _, t, _, _, _, hh⟩ := legacyMint_ok hs
+    exact good_mintH h hh
+  | legacyBurn sender symbol amount =>
+    obtain ⟨_, _, t, _, _, _, hh⟩ := legacyBurn_ok hs
+    exact good_burnH h hh
+  | legacyIssue _ _ _ _ _ _ _ _ => cases hn
+  | legacyEdit _ _ _ _ _ => cases hn
+  | legacyTransferOwner _ _ _ => cases hn
   | swapFee _ _ _ _ => cases hop
   | deploy _ _ _ _ _ => cases hop
   | swapToErc20 _ _ _ _ => cases hop
@@ -615,6 +714,13 @@ theorem good_step (s s' : State) (op : Op) (h : Good s) (hop : isC09Op op = true
   | evmFault _ => cases hop
   | updateParams _ _ => cases hop
   | evmTx _ _ => cases hop
+  | upgradeErc20 _ _ => cases hop
+
+/-- **C09(3a)** one accepted issue / edit / mint / burn / hand-over — through the v1 or through the
+legacy Msg service — keeps every token within its cap -/
+theorem good_step (s s' : State) (op : Op) (h : Good s) (hop : isC09Op op = true)
+    (hs : step s op = .ok s') : Good s' :=
+  good_step_core s s' (norm op) (norm_idem op) h (by rw [isC09Op_norm]; exact hop) (by rw [← step_norm]; exact hs)
 
 theorem good_apply (s : State) (op : Op) (h : Good s) (hop : isC09Op op = true) : Good (apply s op) := by
   unfold apply
@@ -622,8 +728,9 @@ theorem good_apply (s : State) (op : Op) (h : Good s) (hop : isC09Op op = true) 
   | ok s' => exact good_step s s' op h hop hs
   | error e => exact h
 
-/-- **C09(3b)** over every history of issue / edit / mint / burn / hand-over by anyone, at every
-scale and amount: every token stays within `maxSupply · 10^scale` -/
+/-- **C09(3b)** over every history of issue / edit / mint / burn / hand-over by anyone, through
+either Msg service (v1 and legacy v1beta1 messages mixed in one history), at every scale and
+amount: every token stays within `maxSupply · 10^scale` -/
 theorem cap_run (s : State) (ops : List Op) (h : Good s) (hops : ∀ op ∈ ops, isC09Op op = true) :
     Good (run s ops) := by
   induction ops generalizing s with
@@ -697,15 +804,23 @@ theorem former_witness_rejected :
 
 /-! ### 4. Burned amounts are tallied exactly -/
 
-/-- what operation `op`, if accepted, adds to the tally of `d` -/
-def burnAdds (d : String) : Op → Nat
-  | .burn _ denom amount => if denom = d then amount.toNat else 0
-  | _ => 0
+theorem burned_mintH {s s' : State} {owner to denom : String} {amount : Int}
+    (hh : handleMint s owner to denom amount = .ok s') : s'.burned = s.burned := (same_mintH hh).2.2.2
 
-/-- **C09(4a)** an accepted burn adds exactly its amount to the tally of its denomination; no
-other operation touches any tally -/
-theorem burned_step (s s' : State) (op : Op) (hs : step s op = .ok s') (d : String) :
-    burnedOf s' d = burnedOf s d + burnAdds d op := by
+theorem burned_burnH {s s' : State} {sender denom : String} {amount : Int}
+    (hh : handleBurn s sender denom amount = .ok s') (d : String) :
+    burnedOf s' d = burnedOf s d + (if denom = d then amount.toNat else 0) := by
+  obtain ⟨_, b, _, rfl⟩ := burnH_ok hh
+  simp only [burnedOf]
+  by_cases hk : denom = d
+  · subst hk; simp [getD_set_self]
+  · simp [hk, getD_set_other _ _ _ _ _ hk]
+
+theorem burnAdds_norm (d : String) (s : State) (op : Op) : burnAdds d s (norm op) = burnAdds d s op := by
+  cases op <;> rfl
+
+theorem burned_step_core (s s' : State) (op : Op) (hn : norm op = op) (hs : step s op = .ok s') (d : String) :
+    burnedOf s' d = burnedOf s d + burnAdds d s op := by
   cases op with
   | issue owner symbol name minUnit scale init max mintable =>
     obtain ⟨_, _, s1, h1, _, _, rfl⟩ := issue_ok hs
@@ -715,16 +830,8 @@ theorem burned_step (s s' : State) (op : Op) (hs : step s op = .ok s') (d : Stri
     obtain ⟨t, _, _, _, rfl⟩ := edit_ok hs
     rfl
   | mint owner to denom amount =>
-    obtain ⟨_, _, sym, s1, _, h1, h2⟩ := mint_ok hs
-    obtain ⟨_, _, _, _, _, _, _, rfl⟩ := deductFee_ok h1
-    obtain ⟨_, _, _, _, _, rfl⟩ := mintChecked_ok h2
-    rfl
-  | burn sender denom amount =>
-    obtain ⟨_, _, b, _, rfl⟩ := burn_step_ok hs
-    simp only [burnedOf, burnAdds]
-    by_cases hk : denom = d
-    · subst hk; simp [getD_set_self]
-    · simp [hk, getD_set_other _ _ _ _ _ hk]
+    simp only [burnedOf, burnAdds, burned_mintH (mint_handle hs).2.2, Nat.add_zero]
+  | burn sender denom amount => exact burned_burnH (burn_handle hs).2.2 d
   | transferOwner src dst symbol =>
     obtain ⟨_, t, _, _, rfl⟩ := transferOwner_ok hs
     rfl
@@ -749,16 +856,34 @@ theorem burned_step (s s' : State) (op : Op) (hs : step s op = .ok s') (d : Stri
   | evmTx target logs =>
     have f := logs_frame (evmTx_ok hs)
     simp only [burnedOf, burnAdds, f.burned, Nat.add_zero]
+  | legacyIssue _ _ _ _ _ _ _ _ => cases hn
+  | legacyEdit _ _ _ _ _ => cases hn
+  | legacyTransferOwner _ _ _ => cases hn
+  | legacyMint owner to symbol amount =>
+    obtain ⟨_, _, t, _, _, _, hh⟩ := legacyMint_ok hs
+    simp only [burnedOf, burnAdds, burned_mintH hh, Nat.add_zero]
+  | legacyBurn sender symbol amount =>
+    obtain ⟨_, _, t, ht, _, _, hh⟩ := legacyBurn_ok hs
+    rw [burned_burnH hh d]
+    simp only [burnAdds, ht, Int.toNat_natCast]
+  | upgradeErc20 authority impl =>
+    obtain ⟨_, _, _, _, _, rfl⟩ := upgrade_ok hs
+    rfl
+
+/-- **C09(4a)** an accepted burn adds exactly its amount to the tally of its denomination — a legacy
+burn `amount · 10^scale` to the tally of the min unit of the token its symbol names; no other
+operation touches any tally -/
+theorem burned_step (s s' : State) (op : Op) (hs : step s op = .ok s') (d : String) :
+    burnedOf s' d = burnedOf s d + burnAdds d s op := by
+  rw [← burnAdds_norm]
+  exact burned_step_core s s' (norm op) (norm_idem op) (by rw [← step_norm]; exact hs) d
 
 theorem burnSum_cons (d : String) (s : State) (op : Op) (rest : List Op) :
     burnSum d s (op :: rest) =
-      (match step s op with | .ok _ => burnAdds d op | .error _ => 0) + burnSum d (apply s op) rest := by
-  simp only [burnSum]
-  congr 1
-  cases op <;> cases step s _ <;> rfl
+      (match step s op with | .ok _ => burnAdds d s op | .error _ => 0) + burnSum d (apply s op) rest := rfl
 
-/-- **C09(4b)** over every history: the tally of a denomination is what it was plus the sum of
-the accepted burns of that denomination -/
+/-- **C09(4b)** over every history (v1 and legacy burns mixed): the tally of a denomination is what
+it was plus the sum of the accepted burns of that denomination -/
 theorem burned_tally_run (s : State) (ops : List Op) (d : String) :
     burnedOf (run s ops) d = burnedOf s d + burnSum d s ops := by
   induction ops generalizing s with
@@ -934,9 +1059,8 @@ theorem ownidx_add {s s' : State} {t : Token} {sym : String} (h : OwnIdx s)
 
 theorem TM_ne_empty : TM ≠ "" := by decide
 
-/-- **C09(6a)** every accepted operation keeps the owner index in step with the token table: a
-hand-over removes the old owner's entry and adds the new owner's -/
-theorem ownidx_step (s s' : State) (op : Op) (hwf : WF s) (h : OwnIdx s) (hs : step s op = .ok s') : OwnIdx s' := by
+theorem ownidx_step_core (s s' : State) (op : Op) (hn : norm op = op) (hwf : WF s) (h : OwnIdx s)
+    (hs : step s op = .ok s') : OwnIdx s' := by
   cases op with
   | issue owner symbol name minUnit scale init max mintable =>
     obtain ⟨_, _, s1, h1, hc1, _, rfl⟩ := issue_ok hs
@@ -946,12 +1070,24 @@ theorem ownidx_step (s s' : State) (op : Op) (hwf : WF s) (h : OwnIdx s) (hs : s
     obtain ⟨t, ht, _, _, rfl⟩ := edit_ok hs
     exact ownidx_modify (t' := edited t name max mintable) h ht rfl rfl (fun _ => rfl)
   | mint owner to denom amount =>
-    obtain ⟨_, _, sym, s1, _, h1, h2⟩ := mint_ok hs
-    obtain ⟨_, _, _, _, _, _, _, rfl⟩ := deductFee_ok h1
-    obtain ⟨_, _, _, _, _, rfl⟩ := mintChecked_ok h2
-    exact ownidx_of_same h rfl rfl
+    obtain ⟨e1, _, e3, _⟩ := same_mintH (mint_handle hs).2.2
+    exact ownidx_of_same h e1 e3
   | burn sender denom amount =>
-    obtain ⟨_, _, b, _, rfl⟩ := burn_step_ok hs
+    obtain ⟨e1, _, e3⟩ := same_burnH (burn_handle hs).2.2
+    exact ownidx_of_same h e1 e3
+  | legacyIssue _ _ _ _ _ _ _ _ => cases hn
+  | legacyEdit _ _ _ _ _ => cases hn
+  | legacyTransferOwner _ _ _ => cases hn
+  | legacyMint owner to symbol amount =>
+    obtain ⟨_, _, t, _, _, _, hh⟩ := legacyMint_ok hs
+    obtain ⟨e1, _, e3, _⟩ := same_mintH hh
+    exact ownidx_of_same h e1 e3
+  | legacyBurn sender symbol amount =>
+    obtain ⟨_, _, t, _, _, _, hh⟩ := legacyBurn_ok hs
+    obtain ⟨e1, _, e3⟩ := same_burnH hh
+    exact ownidx_of_same h e1 e3
+  | upgradeErc20 authority impl =>
+    obtain ⟨_, _, _, _, _, rfl⟩ := upgrade_ok hs
     exact ownidx_of_same h rfl rfl
   | transferOwner src dst symbol =>
     obtain ⟨_, t, ht, ho, rfl⟩ := transferOwner_ok hs
@@ -1040,6 +1176,11 @@ theorem ownidx_step (s s' : State) (op : Op) (hwf : WF s) (h : OwnIdx s) (hs : s
     have f := logs_frame (evmTx_ok hs)
     exact ownidx_of_same h f.tokens f.owners
 
+/-- **C09(6a)** every accepted operation keeps the owner index in step with the token table: a
+hand-over (v1 or legacy) removes the old owner's entry and adds the new owner's -/
+theorem ownidx_step (s s' : State) (op : Op) (hwf : WF s) (h : OwnIdx s) (hs : step s op = .ok s') : OwnIdx s' :=
+  ownidx_step_core s s' (norm op) (norm_idem op) hwf h (by rw [← step_norm]; exact hs)
+
 theorem ownidx_genesis (bank : Bank) (p : Params) (env : Env) : OwnIdx (genesis bank p env) := by
   constructor
   · intro sym t ht
@@ -1067,5 +1208,181 @@ theorem ownidx_run (s : State) (ops : List Op) (hwf : WF s) (h : OwnIdx s) : Own
     cases hs : step s op with
     | ok s' => exact ownidx_step s s' op hwf h hs
     | error e => exact h
+
+/-! ### 7. The legacy (v1beta1) Msg service refines the v1 service
+
+Both services are registered on the router and end in the same msg-server methods.  Where the
+adapter copies fields (issue, edit, transfer-owner) the legacy message and the v1 message with the
+same fields are the same operation — same `ValidateBasic` rules, same outcome, accepted or rejected.
+For mint and burn the adapter resolves the token by SYMBOL and calls the v1 method with the coin
+`amount · 10^scale` of that token's min unit; the v1 `ValidateBasic` is not run on that coin, so the
+exact statement is about the msg-server method, and about the whole v1 message whenever the min unit
+is one a v1 message may carry (always, except for a token `DeployERC20` created for an ICS20 denom). -/
+
+/-- **C09(7a)** a legacy issue is the v1 issue with the same fields -/
+theorem legacy_issue_refines_v1 (s : State) (owner symbol name minUnit : String) (scale init max : Nat) (mintable : Bool) :
+    step s (.legacyIssue owner symbol name minUnit scale init max mintable) =
+    step s (.issue owner symbol name minUnit scale init max mintable) := rfl
+
+/-- **C09(7b)** a legacy edit is the v1 edit with the same fields -/
+theorem legacy_edit_refines_v1 (s : State) (owner symbol name : String) (max : Nat) (mintable : String) :
+    step s (.legacyEdit owner symbol name max mintable) = step s (.edit owner symbol name max mintable) := rfl
+
+/-- **C09(7c)** a legacy hand-over is the v1 hand-over with the same fields -/
+theorem legacy_transfer_owner_refines_v1 (s : State) (src dst symbol : String) :
+    step s (.legacyTransferOwner src dst symbol) = step s (.transferOwner src dst symbol) := rfl
+
+/-- **C09(7d)** an accepted legacy mint of `amount` main units of `symbol` has exactly the effect of
+the v1 mint of `amount · 10^scale` of the min unit of the token `symbol` names: it is that call of the
+v1 msg-server method, and it is the v1 *message* whenever the min unit is a legal v1 denom -/
+theorem legacy_mint_refines_v1 (s s' : State) (owner to symbol : String) (amount : Nat)
+    (hs : step s (.legacyMint owner to symbol amount) = .ok s') :
+    0 < amount ∧ amount ≤ maxU64 ∧
+    ∃ t, AMap.get? s.tokens symbol = some t ∧
+      handleMint s owner to t.minUnit ((amount * pow10 t.scale : Nat) : Int) = .ok s' ∧
+      (validSymbol t.minUnit = true →
+        step s (.mint owner to t.minUnit ((amount * pow10 t.scale : Nat) : Int)) = .ok s') := by
+  have hs0 : stepLegacyMint s owner to symbol amount = .ok s' := hs
+  obtain ⟨hpos, hle, t, ht, _, _, hh⟩ := legacyMint_ok hs0
+  refine ⟨hpos, hle, t, ht, hh, ?_⟩
+  intro hv
+  show stepMint s owner to t.minUnit _ = .ok s'
+  unfold stepLegacyMint at hs0
+  split at hs0; · cases hs0
+  rename_i hval
+  have hval' : legacyMintValid owner to symbol amount = true := by simpa using hval
+  unfold legacyMintValid at hval'
+  simp only [Bool.and_eq_true, decide_eq_true_eq] at hval'
+  unfold stepMint
+  have hp := legacy_amount_pos (scale := t.scale) hpos
+  have : (isAddr owner && (to = "" || isAddr to) && decide (0 < ((amount * pow10 t.scale : Nat) : Int)) &&
+      validSymbol t.minUnit) = true := by
+    simp only [Bool.and_eq_true, decide_eq_true_eq]
+    exact ⟨⟨⟨hval'.1.1.1.1, hval'.1.1.1.2⟩, hp⟩, hv⟩
+  simp only [this, Bool.not_true, Bool.false_eq_true, if_false]
+  exact hh
+
+/-- **C09(7e)** an accepted legacy burn of `amount` main units of `symbol` has exactly the effect of
+the v1 burn of `amount · 10^scale` of the min unit of the token `symbol` names -/
+theorem legacy_burn_refines_v1 (s s' : State) (sender symbol : String) (amount : Nat)
+    (hs : step s (.legacyBurn sender symbol amount) = .ok s') :
+    0 < amount ∧ amount ≤ maxU64 ∧
+    ∃ t, AMap.get? s.tokens symbol = some t ∧
+      handleBurn s sender t.minUnit ((amount * pow10 t.scale : Nat) : Int) = .ok s' ∧
+      (validSymbol t.minUnit = true →
+        step s (.burn sender t.minUnit ((amount * pow10 t.scale : Nat) : Int)) = .ok s') := by
+  have hs0 : stepLegacyBurn s sender symbol amount = .ok s' := hs
+  obtain ⟨hpos, hle, t, ht, _, _, hh⟩ := legacyBurn_ok hs0
+  refine ⟨hpos, hle, t, ht, hh, ?_⟩
+  intro hv
+  show stepBurn s sender t.minUnit _ = .ok s'
+  unfold stepLegacyBurn at hs0
+  split at hs0; · cases hs0
+  rename_i hval
+  have hval' : legacyBurnValid sender symbol amount = true := by simpa using hval
+  unfold legacyBurnValid at hval'
+  simp only [Bool.and_eq_true, decide_eq_true_eq] at hval'
+  unfold stepBurn
+  have hp := legacy_amount_pos (scale := t.scale) hpos
+  have : (isAddr sender && decide (0 < ((amount * pow10 t.scale : Nat) : Int)) && validSymbol t.minUnit) = true := by
+    simp only [Bool.and_eq_true, decide_eq_true_eq]
+    exact ⟨⟨hval'.1.1.1, hp⟩, hv⟩
+  simp only [this, Bool.not_true, Bool.false_eq_true, if_false]
+  exact hh
+
+/-- **C09(7f)** owner-only through the legacy service: an accepted legacy edit / hand-over was sent by
+the current owner; an accepted legacy mint by the current owner of a mintable token -/
+theorem legacy_edit_only_owner (s s' : State) (owner symbol name : String) (max : Nat) (mintable : String)
+    (h : step s (.legacyEdit owner symbol name max mintable) = .ok s') : ownerOf s symbol = some owner :=
+  edit_only_owner s s' owner symbol name max mintable h
+
+theorem legacy_transfer_only_owner (s s' : State) (src dst symbol : String)
+    (h : step s (.legacyTransferOwner src dst symbol) = .ok s') :
+    ownerOf s symbol = some src ∧ ownerOf s' symbol = some dst :=
+  transfer_only_owner s s' src dst symbol h
+
+theorem mintH_only_owner_and_mintable {s s' : State} {owner to denom : String} {amount : Int}
+    (hh : handleMint s owner to denom amount = .ok s') :
+    ∃ t, tokenByMinUnit s denom = some t ∧ t.owner = owner ∧ t.mintable = true := by
+  obtain ⟨_, sym, s1, _, h1, h2⟩ := mintH_ok hh
+  obtain ⟨_, _, _, _, _, _, _, rfl⟩ := deductFee_ok h1
+  obtain ⟨t, ht, ho, hm, _, _⟩ := mintChecked_ok h2
+  exact ⟨t, ht, ho.symm, hm⟩
+
+theorem legacy_mint_only_owner_and_mintable (s s' : State) (hwf : WF s) (owner to symbol : String) (amount : Nat)
+    (h : step s (.legacyMint owner to symbol amount) = .ok s') :
+    ∃ t, AMap.get? s.tokens symbol = some t ∧ t.owner = owner ∧ t.mintable = true := by
+  obtain ⟨_, _, t, ht, _, _, hh⟩ := legacyMint_ok h
+  obtain ⟨t', ht', ho, hm⟩ := mintH_only_owner_and_mintable hh
+  obtain ⟨emu, etok, _⟩ := tokenByMinUnit_wf hwf ht'
+  have := (minUnit_identifies_one_token hwf ht etok emu.symm).2
+  subst this
+  exact ⟨t, ht, ho, hm⟩
+
+/-- … so a stranger's legacy message is rejected and changes nothing -/
+theorem legacy_edit_by_stranger_rejected (s : State) (o sender symbol name : String) (max : Nat) (mintable : String)
+    (ho : ownerOf s symbol = some o) (hne : sender ≠ o) :
+    apply s (.legacyEdit sender symbol name max mintable) = s :=
+  edit_by_stranger_rejected s o sender symbol name max mintable ho hne
+
+theorem legacy_transfer_by_stranger_rejected (s : State) (o sender dst symbol : String)
+    (ho : ownerOf s symbol = some o) (hne : sender ≠ o) :
+    apply s (.legacyTransferOwner sender dst symbol) = s :=
+  transfer_by_stranger_rejected s o sender dst symbol ho hne
+
+theorem legacy_mint_by_stranger_or_unmintable_rejected (s : State) (hwf : WF s) (t : Token)
+    (sender to symbol : String) (amount : Nat)
+    (ht : AMap.get? s.tokens symbol = some t) (hne : sender ≠ t.owner ∨ t.mintable = false) :
+    apply s (.legacyMint sender to symbol amount) = s := by
+  unfold apply
+  cases hs : step s (.legacyMint sender to symbol amount) with
+  | error e => rfl
+  | ok s' =>
+    obtain ⟨t', ht', ho, hm⟩ := legacy_mint_only_owner_and_mintable s s' hwf sender to symbol amount hs
+    rw [ht] at ht'; cases ht'
+    rcases hne with hne | hne
+    · exact absurd ho.symm hne
+    · rw [hm] at hne; cases hne
+
+/-- **C09(7g)** the maximum can never be lowered below what circulates through the legacy edit either -/
+theorem legacy_max_never_below_circulating (s s' : State) (owner symbol name : String) (max : Nat) (mintable : String)
+    (t' : Token) (hs : step s (.legacyEdit owner symbol name max mintable) = .ok s') (hmax : 0 < max)
+    (ht' : AMap.get? s'.tokens symbol = some t') : supplyOf s' t'.minUnit ≤ max * pow10 t'.scale :=
+  max_never_below_circulating s s' owner symbol name max mintable t' hs hmax ht'
+
+/-- **C09(7h)** an accepted legacy burn takes exactly `amount · 10^scale` of the token's min unit from
+the burner and from the supply, and adds exactly that to the burned tally -/
+theorem legacy_burn_exact (s s' : State) (sender symbol : String) (amount : Nat)
+    (hs : step s (.legacyBurn sender symbol amount) = .ok s') :
+    ∃ t, AMap.get? s.tokens symbol = some t ∧ 0 < amount ∧
+      amount * pow10 t.scale ≤ balOf s sender t.minUnit ∧
+      balOf s' sender t.minUnit = balOf s sender t.minUnit - amount * pow10 t.scale ∧
+      supplyOf s' t.minUnit = supplyOf s t.minUnit - amount * pow10 t.scale ∧
+      burnedOf s' t.minUnit = burnedOf s t.minUnit + amount * pow10 t.scale ∧
+      (∀ a' d', (sender, t.minUnit) ≠ (a', d') → balOf s' a' d' = balOf s a' d') ∧
+      (∀ d', t.minUnit ≠ d' → supplyOf s' d' = supplyOf s d') ∧ s'.tokens = s.tokens := by
+  obtain ⟨hpos, _, t, ht, _, _, hh⟩ := legacyBurn_ok hs
+  obtain ⟨_, b, hb, rfl⟩ := burnH_ok hh
+  rw [Int.toNat_natCast] at hb
+  obtain ⟨e1, e2, e3, e4, e5⟩ := burn_ok hb
+  refine ⟨t, ht, hpos, e1, e2, e3, ?_, e4, e5, rfl⟩
+  simp only [burnedOf, getD_set_self, Int.toNat_natCast]
+
+/-- **C09(7i)** the fee of a legacy issue / mint is the fee of the v1 message: nothing stays in the
+module account -/
+theorem legacy_issue_module_account_zero (s s' : State) (owner symbol name minUnit : String) (scale init max : Nat)
+    (mintable : Bool) (hs : step s (.legacyIssue owner symbol name minUnit scale init max mintable) = .ok s')
+    (hp : owner ≠ TM) (d : String) : balOf s' TM d = balOf s TM d :=
+  issue_module_account_zero s s' owner symbol name minUnit scale init max mintable hs hp d
+
+theorem legacy_mint_module_account_zero (s s' : State) (owner to symbol : String) (amount : Nat)
+    (hs : step s (.legacyMint owner to symbol amount) = .ok s') (hp : owner ≠ TM) (hr : rcptOf owner to ≠ TM)
+    (d : String) : balOf s' TM d = balOf s TM d := by
+  obtain ⟨_, _, t, _, _, _, hh⟩ := legacyMint_ok hs
+  obtain ⟨_, sym, s1, _, h1, h2⟩ := mintH_ok hh
+  obtain ⟨_, _, _, _, _, rfl⟩ := mintChecked_ok h2
+  rw [← deductFee_module_zero h1 hp d]
+  simp only [balOf]
+  exact balOf_mint_other _ _ _ _ _ _ (by intro e; exact hr (congrArg Prod.fst e))
 
 end Irismod.Props.C09
